@@ -4,8 +4,10 @@ package interp
 
 import (
 	"fmt"
-	"os"
 	"go/types"
+	"os"
+	"runtime"
+	"runtime/pprof"
 	"sort"
 	"strings"
 	"sync"
@@ -70,16 +72,16 @@ type PathStats struct {
 
 // Explorer runs one harness function over all feasible paths.
 type Explorer struct {
-	Prog        *Program
-	Harness     string
-	SolverName  string
-	TimeoutMs   int
-	Workers     int
-	StepCap     int
-	PathCap     int
-	Bounds      map[string]int
-	ExpectPanic bool // a target panic escaping the harness is a violation unless expected
-	Deadline    time.Time
+	Prog              *Program
+	Harness           string
+	SolverName        string
+	TimeoutMs         int
+	Workers           int
+	StepCap           int
+	PathCap           int
+	Bounds            map[string]int
+	ExpectPanic       bool // a target panic escaping the harness is a violation unless expected
+	Deadline          time.Time
 	FallbackName      string
 	FallbackTimeoutMs int
 	FallbackQueries   int
@@ -142,6 +144,7 @@ func (ex *Explorer) Run() {
 				return
 			case <-time.After(30 * time.Second):
 			}
+			memGuard()
 			ex.mu.Lock()
 			stalled := time.Since(ex.lastProgress) > 20*time.Minute
 			ex.mu.Unlock()
@@ -394,10 +397,10 @@ func traceString(tr []dec, kinds []string) string {
 // sibling paths; terms are hash-consed with deterministic variable
 // names, so the pair is identified by term ids.
 var (
-	qcMu    sync.Mutex
-	qcache  = map[[2]uint64]Result{}
-	QCHits  int
-	QCMiss  int
+	qcMu   sync.Mutex
+	qcache = map[[2]uint64]Result{}
+	QCHits int
+	QCMiss int
 )
 
 var noQueryCache = os.Getenv("VERIF_NOCACHE") != ""
@@ -891,3 +894,45 @@ func (i *interpreter) mapOrder(live []*oentry) []*oentry {
 }
 
 var _ = types.Bool
+
+// memGuard keeps the engine's own heap bounded on very long explorations: the
+// hash-consing table and the query cache only save work, so both are dropped
+// when the heap passes VERIF_MEM_GB (default 16); VERIF_MEMPROFILE=<file>
+// additionally dumps a heap profile at every look.
+func memGuard() {
+	var ms runtime.MemStats
+	runtime.ReadMemStats(&ms)
+	if p := os.Getenv("VERIF_MEMPROFILE"); p != "" {
+		if f, err := os.Create(p); err == nil {
+			pprof.WriteHeapProfile(f)
+			f.Close()
+		}
+		fmt.Fprintf(os.Stderr, "mem: heap=%dMB sys=%dMB terms=%d qcache=%d\n", ms.HeapAlloc>>20, ms.Sys>>20, termCount(), qcacheLen())
+	}
+	limit := uint64(16)
+	if v := os.Getenv("VERIF_MEM_GB"); v != "" {
+		fmt.Sscan(v, &limit)
+	}
+	if ms.HeapAlloc>>30 >= limit {
+		termMu.Lock()
+		termTable = map[string]*Term{}
+		termMu.Unlock()
+		qcMu.Lock()
+		qcache = map[[2]uint64]Result{}
+		qcMu.Unlock()
+		runtime.GC()
+		fmt.Fprintf(os.Stderr, "mem: heap reached %d GB: term table and query cache dropped\n", limit)
+	}
+}
+
+func termCount() int {
+	termMu.Lock()
+	defer termMu.Unlock()
+	return len(termTable)
+}
+
+func qcacheLen() int {
+	qcMu.Lock()
+	defer qcMu.Unlock()
+	return len(qcache)
+}
